@@ -80,6 +80,25 @@ def cases(ctx):
     rng = ctx.rng
     if ctx.tier == "thorough":
         yield from exhaustive_bool()
+    # elements much wider than the image with few members: an offset longer than the image still reads the replicated edge pixel
+    for i in range(60 if ctx.tier == "quick" else 600):
+        shape = [rng.randint(1, 4), rng.randint(1, 4)]
+        bsh = [rng.choice([1, 3, 5, 7, 9]), rng.choice([1, 3, 5, 7, 9, 11])]
+        bv = [0] * gen.size(bsh)
+        for _ in range(rng.choice([1, 1, 2, 3])):
+            bv[rng.randrange(len(bv))] = 1
+        yield {"op": rng.choice(["erode", "dilate"]), "dtype": "bool", "shape": shape, "vals": gen.rand_values(rng, "bool", gen.size(shape)),
+               "bshape": bsh, "bvals": bv, "regular": False, "kind": "sparse-wide", "layout": "C", "blayout": "C"}
+    # the default element (Bc=None) and the integer codes, after other public calls that use the same default element in the same
+    # process (extrema, label, open ...): the element handed to erode/dilate must not depend on that history
+    for i in range(60 if ctx.tier == "quick" else 600):
+        dtype = rng.choice(["bool", "uint8", "uint16", "int32", "int64"])
+        nd = rng.choice([1, 2, 2, 3, 3, 4])
+        shape = [rng.randint(1, 5 if nd < 4 else 3) for _ in range(nd)]
+        code = rng.choice([None, 1, 1, 2, nd] + ([4, 8] if nd == 2 else []) + ([6] if nd == 3 else []))
+        yield {"op": rng.choice(["erode", "dilate"]), "dtype": dtype, "shape": shape, "vals": gen.rand_values(rng, dtype, gen.size(shape)),
+               "kind": "default-element", "code": code, "layout": rng.choice(LAYOUTS),
+               "warm": rng.choice(["regmax", "regmin", "locmax", "locmin", "label", "open", "close", "cwatershed", None])}
     n = 900 if ctx.tier == "quick" else 12000
     for i in range(n):
         dtype = rng.choice(gen.INT_DTYPES + ["bool", "bool", "uint8", "int8"])
@@ -123,12 +142,46 @@ def run_exhaustive(ctx, case):
     return Result(True, True, None, "exhaustive-bool")
 
 
+def run_default_element(ctx, case, a0):
+    """erode/dilate with Bc=None or an integer code: the element is the documented one (|offset|_1 <= k on a 3^d grid, with the
+    2-D/3-D neighbour counts 4, 8, 6 translated), whatever was called before in this process"""
+    mh = ctx.mh
+    dtype, nd, code = case["dtype"], a0.ndim, case["code"]
+    k = 1 if code is None else {(2, 4): 1, (2, 8): 2, (3, 6): 1}.get((nd, code), code)
+    idx = np.indices([3] * nd) - 1
+    b0 = (np.abs(idx).sum(0) <= k).astype(a0.dtype)
+    warm = case.get("warm")
+    if warm:
+        w = gen.mk(dtype, case["shape"], case["vals"][::-1])
+        try:
+            if warm == "cwatershed":
+                mh.cwatershed(w, (w > 0).astype(np.int64) if dtype != "bool" else w.astype(np.int64))
+            elif warm == "label":
+                mh.label(w)
+            else:
+                getattr(mh, warm)(w)
+        except Exception:
+            pass
+    a = apply_layout(a0, case["layout"], fill=1)
+    got = getattr(mh, case["op"])(a) if code is None else getattr(mh, case["op"])(a, code)
+    if got.dtype != a0.dtype or got.shape != a0.shape:
+        return Result(False, True, {"why": "dtype/shape", "got_dtype": str(got.dtype), "got_shape": list(got.shape)})
+    gl = [int(v) for v in got.reshape(-1)]
+    want = ctx.model.ints("%s %s %s %s" % (case["op"], DT_CODES[dtype], enc_arr(a0), enc_arr(b0)))[0]
+    if gl != want:
+        return Result(False, True, {"why": "%s with the default / integer-code element != model with the documented element" % case["op"],
+                                    "code": code, "after": warm, "want_model": want, "got": gl})
+    return Result(True, len(set(gl)) > 1, None, "%s/default-element/%dD/after-%s" % (case["op"], nd, warm))
+
+
 def run_case(ctx, case):
     if case.get("exh_se"):
         return run_exhaustive(ctx, case)
     mh = ctx.mh
     dtype = case["dtype"]
     a0 = gen.mk(dtype, case["shape"], case["vals"])
+    if case.get("kind") == "default-element":
+        return run_default_element(ctx, case, a0)
     b0 = gen.mk(dtype, case["bshape"], case["bvals"])
     a = apply_layout(a0, case["layout"], fill=1)
     b = apply_layout(b0, case["blayout"], fill=1)
